@@ -110,7 +110,7 @@ pub fn instances() -> Vec<Inst> {
 /// used by the pair space only.
 pub fn instances_with_units() -> Vec<Inst> {
     let mut v = instances();
-    let ints = ["0", "7", "17", "1_000", "007", "0b101", "0B1_0", "0o17", "0x1F", "0XaB_c", "340282366920938463463374607431768211455"];
+    let ints = ["0", "7", "17", "1_000", "1_0", "007", "0b101", "0b1_01", "0B1_0", "0o17", "0o1_7", "0x1F", "0x1_F", "0xA_b", "0x_1", "0XaB_c", "0xdead_BEEF", "340282366920938463463374607431768211455"];
     let floats = ["1.5", "1.", ".5", "0.0", "1e3", "1E+3", "1.5e-3", ".5e1", "1_0.0_1", "12.e2", "1e0", "6.02E23", "20.", "0."];
     for unit in ["ns", "us", "µs", "ms", "s", "dt", "im"] {
         for (nums, k) in [(&ints[..], "INT_NUMBER"), (&floats[..], "FLOAT_NUMBER")] {
